@@ -614,3 +614,139 @@ Theorem C10_protect_online_cache_cases : forall c r1 r2 r3 ns dns getkey cache d
     end.
 Proof. exact protect_online_cache_cases. Qed.
 Print Assumptions C10_protect_online_cache_cases.
+
+(* ================================================================================================================
+   Refinement: the concrete cache model (Model/Client.v ccache, cc_get_key, cc_store_key, cc_load; the unprotect pipeline
+   unprotect_online of Proofs/Flow_cache_public.v, which the flow ties above connect to the source) refines the abstract state
+   machine the theorems of this file are about, under abs : ccache -> Cache.cache with
+     K := res bytes, RK := root_key, kdf := akdf c h = Chain.kdfK c h (the concrete chain step over compute_kdf_context),
+     l1seed := al1seed c = compute_l1_key with the hash the root key's own KDF parameters name, nokey := Ok [],
+   root key ids / security descriptors numbered by an injective code : bytes -> Z (left inverse dec).
+   Side conditions (all about inputs the source rejects or raises on, where the error-free abstract model goes on):
+   l0_ok (0 <= L0 <= 2^31 - 1, the source's own guard), good_roots (loaded root keys name a supported hash), asks (the blob
+   parses and its SID yields a target SD), net_ok (the network answers; adc is the abstraction of its answer).
+   PARTIAL: the protect path is proved per step only (C10_refine_protect_partial) under two further hypotheses that depend on
+   the cache contents (the callee _get_protection_gke_from_cache does not raise; a cached envelope it finds names the hash h);
+   histories and the two corollaries below are for {load_key, unprotect} histories.
+   ---------------------------------------------------------------------------------------------------------------- *)
+From V Require Import Model.Chain Model.KeyId Model.SecDesc Model.Blob Model.Interval.
+From V Require Import Proofs.C10Refine Proofs.C10RefineEx.
+
+Theorem C10_refine_code : forall b, dec (code b) = b.
+Proof. exact dec_code. Qed.
+Print Assumptions C10_refine_code.
+(* (1) *)
+Theorem C10_refine_init_load : abs cc_empty = Cache.empty_cache /\
+  forall cc rkid rk, abs (cc_load cc rkid rk) = Cache.load_key (abs cc) (code rkid) rk.
+Proof. exact (conj abs_empty abs_load). Qed.
+Print Assumptions C10_refine_init_load.
+(* (2) *)
+Theorem C10_refine_store_key : forall cc sd e, abs (cc_store_key cc sd e) = Cache.store_key (abs cc) (code sd) (abs_env e).
+Proof. exact abs_store_key. Qed.
+Print Assumptions C10_refine_store_key.
+Theorem C10_refine_get_key : forall c cc sd rkid l0 l1 l2, l0_ok l0 -> good_roots cc ->
+  exists o cc', cc_get_key c cc sd rkid l0 l1 l2 = Ok (o, cc') /\
+    Cache.get_key (al1seed c) anokey (abs cc) (code sd) (code rkid) l0 l1 l2 = (option_map abs_env o, abs cc').
+Proof. exact abs_get_key. Qed.
+Print Assumptions C10_refine_get_key.
+(* (3) one unprotect call: cache afterwards, and the served / RPC decision (o_rpcs = 0: the call is the offline function for
+   every network oracle; o_rpcs = 1: the concrete lookup missed) *)
+Theorem C10_refine_unprotect : forall c h dns getkey adc cc data server u p a b sd,
+  asks data b sd -> good_roots cc -> net_ok dns getkey adc b sd server u p a ->
+  let kid := b_key_identifier b in
+  let astep := Cache.unprotect (akdf c h) (al1seed c) anokey adc (abs cc) (code sd) (code (kid_rkid kid)) (kid_l0 kid) (kid_l1 kid) (kid_l2 kid) in
+  abs (snd (unprotect_online c dns getkey cc data server u p a)) = snd astep /\
+  (Cache.o_rpcs (fst astep) = 0 \/ Cache.o_rpcs (fst astep) = 1) /\
+  (Cache.o_rpcs (fst astep) = 0 ->
+     forall dns' getkey', unprotect_online c dns' getkey' cc data server u p a = unprotect_offline c cc data) /\
+  (Cache.o_rpcs (fst astep) = 1 ->
+     exists cc1, cc_get_key c cc sd (kid_rkid kid) (kid_l0 kid) (kid_l1 kid) (kid_l2 kid) = Ok (None, cc1)).
+Proof. exact unprotect_refines. Qed.
+Print Assumptions C10_refine_unprotect.
+(* full statement wanted: as C10_refine_unprotect, with hypotheses on inputs only; proved with the two cache-dependent hypotheses *)
+Theorem C10_refine_protect_partial : forall c h dns getkey adc cc r1 r2 r3 ns data sid rkid server dom u p a sd o cc1 n0 n1 n2,
+  get_target_sd sid = Ok sd -> good_roots cc -> Interval.interval_of_time_ns ns = (n0, n1, n2) -> l0_ok n0 ->
+  protection_gke_from_cache c cc rkid sd ns = Ok (o, cc1) ->
+  (forall rid rk cc', rkid = Some rid -> cc_get_key c cc sd rid n0 n1 n2 = Ok (Some rk, cc') ->
+     exists n, KDFParameters_unpack (gke_kdf_params rk) = Ok n /\ hash_algorithm n = Ok h) ->
+  (exists e, envelope_for dns getkey None server dom [VB sd; vbytes_opt rkid; VI (-1); VI (-1); VI (-1); u; p; a] = Ok e /\
+             adc (code sd) (option_map code rkid) (-1) (-1) (-1) = abs_env e) ->
+  let astep := Cache.protect (akdf c h) (al1seed c) anokey adc (abs cc) (code sd) (option_map code rkid) n0 n1 n2 in
+  abs (snd (protect_online c r1 r2 r3 ns dns getkey cc data sid rkid server dom u p a)) = snd astep /\
+  (Cache.o_rpcs (fst astep) = 0 <-> o <> None).
+Proof. exact protect_refines_partial. Qed.
+Print Assumptions C10_refine_protect_partial.
+(* histories of concrete calls (load_key, sync unprotect against the DC cdc) = the abstract machine on the abstract events *)
+Theorem C10_refine_history : forall c h cdc evs, Forall cev_ok evs ->
+  Cache.w_cache (Cache.run_events (akdf c h) (al1seed c) anokey (adc_of cdc) (flat_map aevents evs)) = abs (crun c cdc evs) /\
+  Cache.w_pending (Cache.run_events (akdf c h) (al1seed c) anokey (adc_of cdc) (flat_map aevents evs)) = [] /\
+  good_roots (crun c cdc evs).
+Proof. exact crun_refines. Qed.
+Print Assumptions C10_refine_history.
+Theorem C10_refine_dc_explicit : forall cdc, cdc_explicit cdc -> dc_explicit_ok (adc_of cdc).
+Proof. exact adc_explicit. Qed.
+Print Assumptions C10_refine_dc_explicit.
+
+(* ---- corollaries for the concrete model ---- *)
+Theorem C10_concrete_served_no_rpc : forall c cc data b sd l1 l2, asks data b sd -> good_roots cc ->
+  let kid := b_key_identifier b in
+  kid_l1 kid = l1 -> kid_l2 kid = l2 ->
+  c_served cc (kid_rkid kid) sd (kid_l0 kid) l1 l2 ->
+  forall dns getkey server u p a, unprotect_online c dns getkey cc data server u p a = unprotect_offline c cc data.
+Proof. exact served_no_rpc. Qed.
+Print Assumptions C10_concrete_served_no_rpc.
+(* C10_no_repeat_rpc transferred: once (root key id, target SD, L0) is served at (l1, l2), after ANY further valid history every
+   unprotect of a blob at or before that position is the offline function, for all network oracles (the network is not consulted).
+   cev_ok: loads of supported root keys, blobs that parse; cev_true: loads of the true root keys *)
+Theorem C10_concrete_no_repeat_rpc : forall c h cdc ctruth,
+  dc_conforming_ok (akdf c h) (al1seed c) (adc_of cdc) (atruth ctruth) ->
+  forall evs1 evs2 rkid sd l0 l1 l2 l1' l2',
+  Forall cev_ok (evs1 ++ evs2) -> Forall (cev_true ctruth) (evs1 ++ evs2) ->
+  c_served (crun c cdc evs1) rkid sd l0 l1 l2 -> l1' < l1 \/ (l1' = l1 /\ l2' <= l2) ->
+  let cc := crun c cdc (evs1 ++ evs2) in
+  c_served cc rkid sd l0 l1' l2' /\
+  forall data b, asks data b sd ->
+    kid_rkid (b_key_identifier b) = rkid -> kid_l0 (b_key_identifier b) = l0 ->
+    kid_l1 (b_key_identifier b) = l1' -> kid_l2 (b_key_identifier b) = l2' ->
+    forall dns getkey server u p a, unprotect_online c dns getkey cc data server u p a = unprotect_offline c cc data.
+Proof. exact concrete_no_repeat_rpc. Qed.
+Print Assumptions C10_concrete_no_repeat_rpc.
+(* C10_transparent transferred: in every valid history a completed unprotect call decrypts with an envelope (cached, or the DC's
+   reply) that is for the blob's L0 and whose L2 key at the blob's position - what get_kek derives the KEK from - is the MS-GKDI
+   chain key of (root key id, target SD, L0, L1, L2) under the true root key *)
+Theorem C10_concrete_transparent : forall c h cdc ctruth,
+  dc_conforming_ok (akdf c h) (al1seed c) (adc_of cdc) (atruth ctruth) -> dc_explicit_ok (adc_of cdc) ->
+  forall evs data b sd server u p a rk,
+  Forall cev_ok evs -> Forall (cev_true ctruth) evs -> asks data b sd ->
+  let kid := b_key_identifier b in
+  0 <= kid_l1 kid <= 31 -> 0 <= kid_l2 kid <= 31 ->
+  unprotect_envelope c dns_of (getkey_of cdc) (crun c cdc evs) data server u p a = Ok rk -> gke_is_public_key rk = false ->
+  fst (unprotect_online c dns_of (getkey_of cdc) (crun c cdc evs) data server u p a) = decrypt_blob c b rk /\
+  gke_l0 rk = kid_l0 kid /\
+  Chain.compute_l2_key c h (kid_l1 kid) (kid_l2 kid) rk
+  = key_at (akdf c h) (al1seed c) (atruth ctruth) (code (kid_rkid kid)) (code sd) (kid_l0 kid) (kid_l1 kid) (kid_l2 kid).
+Proof. exact concrete_transparent. Qed.
+Print Assumptions C10_concrete_transparent.
+
+(* ---- the hypotheses are satisfiable, and the conclusions for an instance: guarded symbolic crypto symg, a loaded (true) root
+   key, a DC that answers explicitly and only hands out public envelopes, a blob really protected at (361, 31, 23) ---- *)
+Example C10_refine_ex_hypotheses :
+  (asks rx_B rx_b rx_sd /\ kid_rkid (b_key_identifier rx_b) = rx_rkid /\ kid_l0 (b_key_identifier rx_b) = 361 /\
+   kid_l1 (b_key_identifier rx_b) = 31 /\ kid_l2 (b_key_identifier rx_b) = 23) /\
+  (Forall cev_ok rx_evs /\ Forall (cev_true rx_truth) rx_evs) /\
+  cdc_explicit rx_dc /\
+  dc_conforming_ok (akdf C01Lib.symg SHA512) (al1seed C01Lib.symg) (adc_of rx_dc) (atruth rx_truth) /\
+  c_served (crun C01Lib.symg rx_dc rx_evs) rx_rkid rx_sd 361 31 31.
+Proof. exact (conj rx_asks (conj rx_good (conj rx_dc_explicit (conj rx_dc_conforming rx_served)))). Qed.
+Example C10_refine_ex_no_rpc : forall dns getkey server u p a,
+  unprotect_online C01Lib.symg dns getkey (crun C01Lib.symg rx_dc rx_evs) rx_B server u p a
+  = unprotect_offline C01Lib.symg (crun C01Lib.symg rx_dc rx_evs) rx_B.
+Proof. exact rx_no_rpc. Qed.
+Example C10_refine_ex_plaintext : fst (unprotect_offline C01Lib.symg (crun C01Lib.symg rx_dc rx_evs) rx_B) = Ok rx_data.
+Proof. exact rx_plaintext. Qed.
+Example C10_refine_ex_transparent :
+  fst (unprotect_online C01Lib.symg dns_of (getkey_of rx_dc) (crun C01Lib.symg rx_dc rx_evs) rx_B None VN VN VN) = decrypt_blob C01Lib.symg rx_b rx_env /\
+  gke_l0 rx_env = 361 /\
+  Chain.compute_l2_key C01Lib.symg SHA512 31 23 rx_env
+  = key_at (akdf C01Lib.symg SHA512) (al1seed C01Lib.symg) (atruth rx_truth) (code rx_rkid) (code rx_sd) 361 31 23.
+Proof. exact rx_transparent. Qed.
